@@ -2,9 +2,10 @@
 # usage: tools/mut.sh <seeded-name> <prop> [<prop>...]   applies /verif/seeded/<name>/patch.diff to /repo, runs the
 # checks, and reverts the patch with `git apply -R` (never `git checkout`, which would drop uncommitted contract edits).
 n=$1; shift
-cd /repo && git apply /verif/seeded/$n/patch.diff || { echo "APPLY-FAIL $n"; exit 2; }
+P=/verif/seeded/$n/patch.diff; [ -f /verif/seeded/$n/patch_rebased.diff ] && P=/verif/seeded/$n/patch_rebased.diff
+cd /repo && git apply $P || { echo "APPLY-FAIL $n"; exit 2; }
 for p in "$@"; do
   echo "== $n vs $p"
   (cd /verif && ./bin/gvc check -prop $p 2>&1 | grep -o "obligation=[^ ]*\|^property.*\|CHECK-ERROR.*" | head -${MUTLINES:-6})
 done
-cd /repo && git apply -R /verif/seeded/$n/patch.diff || echo "REVERT-FAIL $n"
+cd /repo && git apply -R $P || echo "REVERT-FAIL $n"
